@@ -761,6 +761,19 @@ def rule_row_operations(chk):
     if len(params) < 3:
         raise AnalysisError('gj_solve: parameters vanished')
     n_, nb_ = Poly.var(params[1]), Poly.var(params[2])
+    # the row width: the local that holds n + nb and multiplies the row index in the subscripts of the matrix (whatever it is called); it stays a symbol below
+    wcands = set(a_.targets[0].id for a_ in ast.walk(fn) if isinstance(a_, ast.Assign) and len(a_.targets) == 1 and isinstance(a_.targets[0], ast.Name) and
+                 from_ast(a_.value) is not None and from_ast(a_.value) == n_ + nb_)
+    WN = None
+    for x in ast.walk(fn):
+        if isinstance(x, ast.Subscript) and isinstance(x.value, ast.Name) and x.value.id == params[0]:
+            for y in ast.walk(x.slice):
+                if isinstance(y, ast.BinOp) and isinstance(y.op, ast.Mult):
+                    for side in (y.left, y.right):
+                        if isinstance(side, ast.Name) and side.id in wcands:
+                            WN = side.id
+    if WN is None:
+        raise AnalysisError('gj_solve: the row width (a local holding n + nb that multiplies the row index) was not found')
     env = {}        # integer names -> Poly in the parameters and loop variables (nt stays a symbol: it is what splits a flat index into row and column)
     scal = {}       # scalar names -> ((num, den), loops enclosing the definition)
     stores = []
@@ -775,11 +788,11 @@ def rule_row_operations(chk):
         p_ = from_ast(idx, env)
         if p_ is None:
             raise Skip('index %s' % U(idx))
-        sp = p_.coeff_of('nt')
+        sp = p_.coeff_of(WN)
         if sp is None:
             raise Skip('index %s' % U(idx))
         R, C = sp
-        if 'nt' in R.atoms() or 'nt' in C.atoms():
+        if WN in R.atoms() or WN in C.atoms():
             raise Skip('index %s' % U(idx))
         return R, C
 
@@ -833,7 +846,7 @@ def rule_row_operations(chk):
                 if isinstance(st.value, ast.Call) and M.call_name(st.value) == 'declare':
                     continue
                 if isinstance(tg, ast.Name):
-                    p_ = from_ast(st.value, env) if tg.id != 'nt' else None
+                    p_ = from_ast(st.value, env) if tg.id != WN else None
                     names_ = set(x.id for x in ast.walk(st.value) if isinstance(x, ast.Name))
                     if p_ is not None and not any(isinstance(x, (ast.Subscript, ast.Call)) for x in ast.walk(st.value)) and not (names_ & set(scal)) and \
                             not any(isinstance(x, ast.Constant) and isinstance(x.value, float) for x in ast.walk(st.value)):
@@ -967,7 +980,7 @@ def rule_row_operations(chk):
     # the test, its locals written out, at these values of the one matrix entry it reads
     from verif_static.norm import local_defs as ld_, inline as inl_
     # (integer temporaries - nt, augCol, rb ... - stay names: the flat index is split into row and column with them)
-    defs_ = dict((k_, v_) for k_, v_ in ld_([fn]).items() if k_ != 'nt' and k_ not in env and (any(isinstance(x, (ast.Subscript, ast.Call)) for x in ast.walk(v_)) or
+    defs_ = dict((k_, v_) for k_, v_ in ld_([fn]).items() if k_ != WN and k_ not in env and (any(isinstance(x, (ast.Subscript, ast.Call)) for x in ast.walk(v_)) or
                                                                                              (isinstance(v_, ast.Constant) and isinstance(v_.value, (int, float)) and not isinstance(v_.value, bool) and k_ not in M.arg_names(fn))))
     n_t = 0
     for r_ in [x for x in ast.walk(fn) if isinstance(x, ast.Return) and x.value is not None and U(x.value) in ('1.0', '1')]:
